@@ -96,3 +96,15 @@ package absnfs
 //@ ensures [miss-nil] !result1 ==> len(result0) == 0
 //@ also DirCache.Put
 //@ ensures [other-lists] {C26, C21} listFrame(c.accessList)
+
+// ---- the listing leaves out "." and ".." and nothing else of its own accord (added after a seeded change whose
+// widened dot-entry filter dropped real two-character names was not detected): a loop iteration that goes back
+// to the loop head before the entry's path has been computed does so only for the names "." and ".."
+//@ also AbsfsNFS.ReadDirWithContext
+//@ loop 1 backedge [skips-only-dot-entries] {C26} before entryPath : name == "." || name == ".."
+//@ loop 2 backedge [skips-only-dot-entries] {C26} before entryPath : name == "." || name == ".."
+// an entry that is looked up is looked up under the path sanitizePath makes of the directory's path and the
+// backend's name for it, and the node found is the one appended
+//@ callassert AbsfsNFS.Lookup : [looks-up-the-entry] {C26} arg1 == entryPath
+//@ loop 1 backedge [found-entry-is-listed] {C26} after node : isnil(err) ==> len(nodes) > 0 && nodes[len(nodes) - 1] == node
+//@ loop 2 backedge [found-entry-is-listed] {C26} after node : isnil(err) ==> len(nodes) > 0 && nodes[len(nodes) - 1] == node
